@@ -1064,6 +1064,8 @@ const (
 	rvEmptyValSet
 	rvExtraNil
 	rvForeignPowers
+	rvForeignPubKeysOnly // genuine Validators list and hashes, foreign PubKeys slice, certificate signed by those keys
+	rvForgedNext         // genuine certificate; the NextValidatorSet lists are foreign under the genuine hashes
 	rvVariants
 )
 
@@ -1119,6 +1121,20 @@ func (s *sim) buildReplay(op Op) builtReplay {
 				keys[i] = (7 + i) % msKeyPool
 			}
 			signers = vset{Keys: keys, Powers: set.Powers}
+		}
+	case rvForeignPubKeysOnly:
+		keys := make([]int, n)
+		pks := make([]gcrypto.PubKey, n)
+		for i := range keys {
+			keys[i] = (7 + i) % msKeyPool
+			pks[i] = msPub[keys[i]]
+		}
+		hd.ValidatorSet.Validators = append([]tmconsensus.Validator(nil), hd.ValidatorSet.Validators...)
+		hd.ValidatorSet.PubKeys = pks
+		signers = vset{Keys: keys, Powers: set.Powers}
+	case rvForgedNext:
+		if nv, ok := s.w.lookup(hd.NextValidatorSet.PubKeyHash, hd.NextValidatorSet.VotePowerHash); ok {
+			hd.NextValidatorSet = s.w.forgedList(nv, op.D%2 == 1)
 		}
 	case rvBadHash:
 		hd.Hash = flip(hd.Hash)
